@@ -1,11 +1,14 @@
 (* C20 -- property theorems only.  Statements are about the model of tensorly/metrics (Model/Metrics.v)
    instantiated at the real numbers (Rops); the executed instance is Qops.  Column norms enter as data with
    the contract norms_valid (n > 0, n^2 = sum of squares); linear_sum_assignment is the oracle `assign`
-   with contract lsa_contract (a maximum-weight perfect matching). *)
+   with contract lsa_contract (a maximum-weight perfect matching) in the theorems named _given_lsa; the optimality of a
+   concrete answer is decided WITHOUT that contract by the brute force (C20_checked_assignment_optimal) or by a dual
+   certificate (C20_dual_certificate_optimal).  The square root of the sqrt-based regression metrics is an argument of their
+   model functions (here: sqrt). *)
 From Coq Require Import List Arith Bool Reals QArith Lia Lra ZArith.
 From TLV Require Import Base.Shape Base.PyList Base.Tensor Base.Ops Base.RSum Model.Metrics Proofs.MetricsProofs
   Proofs.MetricsProofs2 Proofs.MetricsProofs3 Proofs.MetricsProofs4 Proofs.MetricsProofs5 Proofs.MetricsProofs6
-  Proofs.MetricsProofs7 Proofs.MetricsProofs8 Proofs.MetricsProofs9 Proofs.MetricsProofs10 Proofs.MetricsProofs11.
+  Proofs.MetricsProofs7 Proofs.MetricsProofs8 Proofs.MetricsProofs9 Proofs.MetricsProofs10 Proofs.MetricsProofs11 Proofs.MetricsProofs12.
 Import ListNotations.
 Local Close Scope Q_scope.
 Local Open Scope R_scope.
@@ -436,6 +439,15 @@ Theorem C20_norm_axis_spec : forall (z : BinNums.Z) (nd : nat),
 Proof. exact norm_axis_spec. Qed.
 Print Assumptions C20_norm_axis_spec.
 
+(* ---------- the permutation indeterminacy: the permuted CP tensor stands for the same full tensor ----------
+   cp_entry r w fs idx = sum_k w_k prod_m F_m[i_m, k]: the entry at idx (one row index per mode) of the full tensor.
+   cp_permute p = what cp_permute_factors does to weights and factors once the permutation p is known. *)
+Theorem C20_cp_permute_same_tensor : forall (r : nat) (p : list nat) (w : list R) (fs : list (mat R)) (idx : list nat),
+  is_perm r p -> Forall2 (fun F i => (i < nrows F)%nat) fs idx ->
+  cp_entry r (fst (cp_permute Rops p w fs)) (snd (cp_permute Rops p w fs)) idx = cp_entry r w fs idx.
+Proof. exact cp_permute_same_tensor. Qed.
+Print Assumptions C20_cp_permute_same_tensor.
+
 (* ---------- when the entry points fail ---------- *)
 (* congruence_coefficient (its model) rejects EXACTLY: lists of different lengths, an empty list, a matrix whose number of
    columns differs from that of the first one, a pair with different numbers of rows, a matrix with an all-zero column *)
@@ -447,6 +459,23 @@ Theorem C20_congruence_rejects_iff : forall (absv : bool) (As Bs : list (mat R))
   (exists M j, In M (As ++ Bs) /\ (j < ncols M)%nat /\ forall i, (i < nrows M)%nat -> mget Rops M i j = 0).
 Proof. intros. rewrite congruence_err_iff. apply cong_matrix_err_iff. Qed.
 Print Assumptions C20_congruence_rejects_iff.
+
+(* correlation_index (its model) rejects EXACTLY: a factor list that is empty or of mixed rank, an unknown method, a compared
+   pair of different shapes, a compared matrix with an all-zero column (ci_sides: the stacked matrix for Stacked) *)
+Theorem C20_correlation_index_rejects_iff : forall (meth : option cmethod) (tol : R) (f1s f2s : list (mat R)) (n1s n2s : list (list R)),
+  correlation_index Rops meth tol f1s f2s n1s n2s = Err <->
+  one_rank f1s = false \/ one_rank f2s = false \/ meth = None \/
+  exists me, meth = Some me /\
+    ((exists A B, In (A, B) (combine (ci_sides me f1s) (ci_sides me f2s)) /\ (nrows A <> nrows B \/ ncols A <> ncols B)) \/
+     (exists M j, In M (ci_sides me f1s ++ ci_sides me f2s) /\ (j < ncols M)%nat /\
+                  forall i, (i < nrows M)%nat -> mget Rops M i j = 0)).
+Proof. exact correlation_index_err_iff. Qed.
+Print Assumptions C20_correlation_index_rejects_iff.
+
+Theorem C20_one_rank_false_iff : forall (fs : list (mat R)),
+  one_rank fs = false <-> fs = [] \/ exists M, In M (tl fs) /\ ncols M <> ncols (hd [] fs).
+Proof. exact one_rank_false_iff. Qed.
+Print Assumptions C20_one_rank_false_iff.
 
 (* the numerical rank used by leverage_score_dist: 0 iff no singular value exceeds the cut-off max(S) * max(shape) * eps,
    otherwise (index of the LAST singular value above the cut-off) + 1 -- whatever the order of the singular values *)
@@ -499,6 +528,11 @@ Proof.
       destruct k as [|[|k]]; cbn; try lra; lia.
   - intros i Hi. split; [lra|]. split; [lra | discriminate].
 Qed.
+
+(* permuting the components of a rank-2 CP tensor: same entry (w = [2; 3], one mode, row 0: 2*1 + 3*5 = 17) *)
+Example C20_ex_same_tensor : cp_entry 2 [3; 2] [[[5; 1]]] [0%nat] = 17 /\ cp_entry 2 [2; 3] [[[1; 5]]] [0%nat] = 17 /\
+  cp_permute Rops [1; 0]%nat [2; 3] [[[1; 5]]] = ([3; 2], [[[5; 1]]]).
+Proof. unfold cp_entry. cbn. repeat split; lra. Qed.
 
 (* the executed instance accepts such an input and returns 1 with the recovering permutation *)
 Local Open Scope Q_scope.
